@@ -110,6 +110,10 @@ CLAIMS["C18"] = ("exploration",
     "stateful PBT over pop-completed scenarios (bars finishing in any order and in the same cycle, extender rows, text, no-pop bars, successors, buffers and ptys, three refresh regimes); the whole output is interpreted by the VT emulator and the final screen must hold every popped bar exactly once in its finished state, above the live bars and in finishing order; frame-by-frame order validity and render-call counts against the frame model",
     "VT emulator and frame model are trusted base; finishing order and render counts are judged only for manual refresh (exact model); open finding C18-popped-bar-cut-by-height is excluded by construction",
     "model-based stateful property testing (rapid) against a reference terminal interpreter and frame model")
+CLAIMS["C13"] = ("exploration",
+    "randomised schedule search: 1-4 writer goroutines with uniquely tagged payloads (from recycled buffers) racing with render cycles, completions, cancel/Shutdown, the final render and Wait in auto and manual refresh; history oracle over output chunks and invoke/return sequence numbers: exactly once, unmodified, whole lines at the top of a frame, real-time order respected, not later than the last frame before Wait, ErrDone writes leave no byte, late writes return (0, ErrDone)",
+    "one output Write call = one frame; manual-refresh runs may leave accepted text unflushed when no further frame is requested; hangs left to C01",
+    "property-based testing (rapid) of concurrent histories with an exactly-once / order history oracle")
 CLAIMS["C14"] = ("exploration",
     "stateful PBT with the cancel event placed as a program step, inside concurrent phases, and fired from inside the library's own hook points (mid render cycle, mid width exchange, at a bar's exit) at generated occurrences; all refresh modes, render delay, listeners under wrapper stacks (also combined with EWMA); oracle: hang verdict for Wait, exactly-once counts for every listener at Wait and after settling, exactly one duplicate-free notifier value (exact set for clocked runs), stopped bars with the right terminal state",
     "the notifier set is compared exactly only where the frame model applies; schedules inside a perturbation window are sampled",
